@@ -1,6 +1,855 @@
-//! C10 — not implemented yet.
-use crate::core::Ctx;
-use serde_json::Value;
+//! C10 — multipart/form-data bodies decode to exactly the submitted fields and files (DESIGN §5 C10).
+//!
+//! One case = (form, boundary, encoder options, target type).  A form is an ordered list of ≤ 3 parts drawn from
+//! a part alphabet (text fields and files over names `a`,`b`); the body is produced by the independent RFC 7578
+//! encoder in `refmodel::multipart`; it is decoded by the real `ohkami_lib::serde_multipart::from_bytes` into each
+//! of 8 target shapes (and, for one family, through a real `Multipart<T>` handler over read → router → send).
+//! The oracle is the form itself plus a small "does this form fit that field kind" table (`field_alts`).
+//!
+//! Machinery owned by this file (no shared file was edited):
+//! * `fork_run` / `run_unit_isolated`: every unit of the enumeration runs in a forked child of the worker, with a
+//!   progress counter in shared memory.  The subject contains `unsafe` shortcuts that *abort* the process in a
+//!   `verif` build (`unreachable_unchecked` behind `unwrap_unchecked`), which `catch_unwind` cannot intercept.  If a
+//!   child dies, the case it was executing is recorded as a violation of kind `abort:<signal>`, the case is added
+//!   to a skip set and the unit is run again.  Cases for which an abort is *predicted* from the form (an empty file
+//!   input that reaches a required `File` or an undeclared field) are executed in their own grandchild so that the
+//!   known defect does not cost a unit re-run per case.
 
-pub fn run(ctx: &mut Ctx) { ctx.machinery_error("C10 engine not implemented".into()); }
-pub fn replay(ctx: &mut Ctx, _case: &Value) { ctx.machinery_error("C10 engine not implemented".into()); }
+use crate::core::{esc, guarded, panic_kind, unesc, ClassStat, Ctx, Tier, MAX_SAMPLES, MAX_WITNESSES_PER_CLASS};
+use crate::refmodel::multipart::{self as mp, EncOpts, Part, PartBody};
+use ohkami_lib::serde_multipart::{from_bytes, File};
+use serde::{Deserialize, Serialize};
+use serde_json::{json, Value};
+use std::collections::BTreeSet;
+
+/* =============================== what is observed =============================== */
+
+#[derive(Clone, Debug, PartialEq, Eq, Serialize, Deserialize)]
+pub struct FileObs { filename: String, mimetype: String, content: Vec<u8> }
+
+#[derive(Clone, Debug, PartialEq, Eq, Serialize, Deserialize)]
+pub enum FieldObs { S(String), OS(Option<String>), F(FileObs), OF(Option<FileObs>), VF(Vec<FileObs>) }
+
+pub type Obs = Vec<FieldObs>;
+
+#[derive(Clone, Debug, PartialEq, Eq, Serialize, Deserialize)]
+pub enum Observed { Val(Obs), Err(String), Panic(String), Abort(String) }
+
+fn fo(f: &File<'_>) -> FileObs { FileObs { filename: f.filename.to_string(), mimetype: f.mimetype.to_string(), content: f.content.to_vec() } }
+
+impl Observed {
+    fn brief(&self) -> String {
+        match self {
+            Observed::Val(v) => format!("Ok({})", v.iter().map(show_field_obs).collect::<Vec<_>>().join(", ")),
+            Observed::Err(e) => format!("Err({e})"),
+            Observed::Panic(p) => format!("panic: {p}"),
+            Observed::Abort(s) => format!("process died: {s}"),
+        }
+    }
+}
+fn show_file(f: &FileObs) -> String { format!("File{{filename:\"{}\", mimetype:\"{}\", content:\"{}\"}}", f.filename, f.mimetype, esc(&f.content)) }
+fn show_field_obs(f: &FieldObs) -> String {
+    match f {
+        FieldObs::S(s) => format!("\"{}\"", esc(s.as_bytes())),
+        FieldObs::OS(None) | FieldObs::OF(None) => "None".into(),
+        FieldObs::OS(Some(s)) => format!("Some(\"{}\")", esc(s.as_bytes())),
+        FieldObs::F(f) => show_file(f),
+        FieldObs::OF(Some(f)) => format!("Some({})", show_file(f)),
+        FieldObs::VF(v) => format!("[{}]", v.iter().map(show_file).collect::<Vec<_>>().join(", ")),
+    }
+}
+
+/* =============================== target catalogue =============================== */
+
+#[derive(Clone, Copy, Debug, PartialEq, Eq)]
+pub enum Kind { S, OS, F, OF, VF }
+impl Kind {
+    fn name(self) -> &'static str { match self { Kind::S => "text", Kind::OS => "opt-text", Kind::F => "file", Kind::OF => "opt-file", Kind::VF => "files" } }
+}
+
+pub struct TargetDesc {
+    id: &'static str,
+    fields: &'static [(&'static str, Kind)],
+    decode: fn(&[u8]) -> Result<Obs, String>,
+}
+
+#[derive(Deserialize)] struct T0<'a> { a: &'a str }
+#[derive(Deserialize)] struct T1 { a: String, b: String }
+#[derive(Deserialize)] struct T2<'a> { #[serde(borrow)] a: File<'a> }
+#[derive(Deserialize)] struct T3<'a> { #[serde(borrow)] a: Option<File<'a>> }
+#[derive(Deserialize)] struct T4<'a> { #[serde(borrow)] a: Vec<File<'a>> }
+#[derive(Deserialize)] struct T5<'a> { a: String, #[serde(borrow)] b: File<'a> }
+#[derive(Deserialize)] struct T6<'a> { #[serde(borrow)] a: Vec<File<'a>>, b: Option<&'a str> }
+#[derive(Deserialize)] struct T7<'a> { #[serde(borrow)] a: Option<File<'a>>, #[serde(borrow)] b: Vec<File<'a>> }
+// "arbitrary names": fields whose wire names are not Rust identifiers
+#[derive(Deserialize)] struct N0<'a> { #[serde(rename = "é n")] x: String, #[serde(rename = "a[]", borrow)] y: Vec<File<'a>> }
+#[derive(Deserialize)] struct N1<'a> { #[serde(rename = "é n", borrow)] x: Option<File<'a>>, #[serde(rename = "a[]")] y: Option<String> }
+
+fn obs_t6(t: &T6<'_>) -> Obs { vec![FieldObs::VF(t.a.iter().map(fo).collect()), FieldObs::OS(t.b.map(str::to_string))] }
+
+macro_rules! dec { ($T:ty, |$t:ident| $obs:expr) => { |b: &[u8]| from_bytes::<$T>(b).map(|$t| $obs).map_err(|e| e.to_string()) } }
+
+static TARGETS: &[TargetDesc] = &[
+    TargetDesc { id: "T0{a:&str}", fields: &[("a", Kind::S)], decode: dec!(T0, |t| vec![FieldObs::S(t.a.to_string())]) },
+    TargetDesc { id: "T1{a:String,b:String}", fields: &[("a", Kind::S), ("b", Kind::S)], decode: dec!(T1, |t| vec![FieldObs::S(t.a), FieldObs::S(t.b)]) },
+    TargetDesc { id: "T2{a:File}", fields: &[("a", Kind::F)], decode: dec!(T2, |t| vec![FieldObs::F(fo(&t.a))]) },
+    TargetDesc { id: "T3{a:Option<File>}", fields: &[("a", Kind::OF)], decode: dec!(T3, |t| vec![FieldObs::OF(t.a.as_ref().map(fo))]) },
+    TargetDesc { id: "T4{a:Vec<File>}", fields: &[("a", Kind::VF)], decode: dec!(T4, |t| vec![FieldObs::VF(t.a.iter().map(fo).collect())]) },
+    TargetDesc { id: "T5{a:String,b:File}", fields: &[("a", Kind::S), ("b", Kind::F)], decode: dec!(T5, |t| vec![FieldObs::S(t.a), FieldObs::F(fo(&t.b))]) },
+    TargetDesc { id: "T6{a:Vec<File>,b:Option<&str>}", fields: &[("a", Kind::VF), ("b", Kind::OS)], decode: dec!(T6, |t| obs_t6(&t)) },
+    TargetDesc { id: "T7{a:Option<File>,b:Vec<File>}", fields: &[("a", Kind::OF), ("b", Kind::VF)],
+        decode: dec!(T7, |t| vec![FieldObs::OF(t.a.as_ref().map(fo)), FieldObs::VF(t.b.iter().map(fo).collect())]) },
+    TargetDesc { id: "N0{é n:String,a[]:Vec<File>}", fields: &[("é n", Kind::S), ("a[]", Kind::VF)],
+        decode: dec!(N0, |t| vec![FieldObs::S(t.x), FieldObs::VF(t.y.iter().map(fo).collect())]) },
+    TargetDesc { id: "N1{é n:Option<File>,a[]:Option<String>}", fields: &[("é n", Kind::OF), ("a[]", Kind::OS)],
+        decode: dec!(N1, |t| vec![FieldObs::OF(t.x.as_ref().map(fo)), FieldObs::OS(t.y)]) },
+];
+const WIRE_TARGET: usize = 6;
+
+fn target_by_id(id: &str) -> Option<usize> { TARGETS.iter().position(|t| t.id == id) }
+
+/* =============================== the oracle =============================== */
+
+#[derive(Clone, Debug)]
+pub struct FileExp { filename: String, /** None: no Content-Type was written; `""` and the RFC 7578 default `text/plain` are both admissible */ mimetype: Option<String>, content: Vec<u8> }
+#[derive(Clone, Debug)]
+pub enum FieldExp { S(String), OS(Option<String>), F(FileExp), OF(Option<FileExp>), VF(Vec<FileExp>) }
+#[derive(Clone, Debug)]
+pub enum Alt { Err, Val(FieldExp) }
+
+pub struct Expect { fields: Vec<Vec<Alt>>, unknown: bool, empty_form: bool }
+
+fn fe(p: &Part) -> FileExp {
+    match &p.body {
+        PartBody::File { filename, ctype, content } => FileExp { filename: filename.clone(), mimetype: ctype.clone(), content: content.clone() },
+        PartBody::Text { .. } => unreachable!("fe() on a text part"),
+    }
+}
+
+/// What the property statement admits for one field of the target, given the parts submitted under its name.
+/// More than one alternative = the statement is silent (the case is then counted as ambiguous when it agrees).
+fn field_alts(kind: Kind, p: &[&Part], adjacent: bool) -> Vec<Alt> {
+    use Alt::{Err as E, Val as V};
+    match p.len() {
+        0 => match kind {
+            Kind::S | Kind::F => vec![E],                         // a required field with nothing submitted does not fit
+            Kind::OS => vec![V(FieldExp::OS(None))],
+            Kind::OF => vec![V(FieldExp::OF(None))],              // "a missing … file input decodes to an absent value"
+            Kind::VF => vec![E, V(FieldExp::VF(vec![]))],         // serde's missing-field error or the empty list: silent
+        },
+        1 => {
+            let q = p[0];
+            match (&q.body, kind) {
+                (PartBody::Text { value }, Kind::S) => vec![V(FieldExp::S(value.clone()))],
+                (PartBody::Text { value }, Kind::OS) =>
+                    if value.is_empty() { vec![V(FieldExp::OS(None)), V(FieldExp::OS(Some(String::new())))] } else { vec![V(FieldExp::OS(Some(value.clone())))] },
+                (PartBody::Text { value }, Kind::OF) => if value.is_empty() { vec![E, V(FieldExp::OF(None))] } else { vec![E] },
+                (PartBody::Text { .. }, Kind::F | Kind::VF) => vec![E],
+                (PartBody::File { .. }, Kind::S) => vec![E],
+                (PartBody::File { .. }, Kind::OS) => if q.is_empty_file_input() { vec![E, V(FieldExp::OS(None))] } else { vec![E] },
+                (PartBody::File { .. }, Kind::F) => if q.is_empty_file_input() { vec![E, V(FieldExp::F(fe(q)))] } else { vec![V(FieldExp::F(fe(q)))] },
+                (PartBody::File { .. }, Kind::OF) => if q.is_empty_file_input() { vec![V(FieldExp::OF(None))] } else { vec![V(FieldExp::OF(Some(fe(q))))] },
+                (PartBody::File { .. }, Kind::VF) => if q.is_empty_file_input() { vec![V(FieldExp::VF(vec![]))] } else { vec![V(FieldExp::VF(vec![fe(q)]))] },
+            }
+        }
+        _ => {
+            let all_files = p.iter().all(|q| q.is_file());
+            let any_empty = p.iter().any(|q| q.is_empty_file_input());
+            let all_empty = p.iter().all(|q| q.is_empty_file_input());
+            match kind {
+                Kind::VF if all_files => {
+                    let list: Vec<FileExp> = p.iter().filter(|q| !q.is_empty_file_input()).map(|q| fe(q)).collect();
+                    // one input with several files = adjacent parts: order must be kept.  Same-name parts that are not
+                    // adjacent, or an empty input next to a filled one, are two inputs sharing a name: silent (an error,
+                    // the filled ones in order, or all of them in order with the empty input as an empty file).
+                    if !any_empty && adjacent { vec![V(FieldExp::VF(list))] }
+                    else if any_empty { vec![E, V(FieldExp::VF(list)), V(FieldExp::VF(p.iter().map(|q| fe(q)).collect()))] }
+                    else { vec![E, V(FieldExp::VF(list))] }
+                }
+                Kind::OF if all_empty => vec![E, V(FieldExp::OF(None))],
+                Kind::OS if all_empty => vec![E, V(FieldExp::OS(None))],
+                _ => vec![E],   // several values for a single-valued field, or texts mixed with files: does not fit
+            }
+        }
+    }
+}
+
+fn fit(parts: &[&Part], t: &TargetDesc) -> Expect {
+    let mut fields = Vec::with_capacity(t.fields.len());
+    for (name, kind) in t.fields {
+        let idx: Vec<usize> = (0..parts.len()).filter(|&i| parts[i].name == *name).collect();
+        let adjacent = idx.windows(2).all(|w| w[1] == w[0] + 1);
+        let p: Vec<&Part> = idx.iter().map(|&i| parts[i]).collect();
+        fields.push(field_alts(*kind, &p, adjacent));
+    }
+    let unknown = parts.iter().any(|p| !t.fields.iter().any(|(n, _)| p.name == *n));
+    Expect { fields, unknown, empty_form: parts.is_empty() }
+}
+
+fn file_diff(e: &FileExp, o: &FileObs) -> Option<&'static str> {
+    if e.filename != o.filename { return Some("wrong-filename") }
+    match &e.mimetype {
+        Some(m) if *m != o.mimetype => return Some("wrong-mimetype"),
+        None if !(o.mimetype.is_empty() || o.mimetype == "text/plain") => return Some("wrong-mimetype"),
+        _ => {}
+    }
+    if e.content != o.content {
+        return Some(if e.content.starts_with(&o.content) { "wrong-content:truncated" }
+            else if o.content.starts_with(&e.content) { "wrong-content:extended" } else { "wrong-content:other" })
+    }
+    None
+}
+
+/// None = matches
+fn field_diff(e: &FieldExp, o: &FieldObs) -> Option<&'static str> {
+    match (e, o) {
+        (FieldExp::S(a), FieldObs::S(b)) => (a != b).then_some("wrong-text"),
+        (FieldExp::OS(None), FieldObs::OS(None)) | (FieldExp::OF(None), FieldObs::OF(None)) => None,
+        (FieldExp::OS(Some(_)), FieldObs::OS(None)) | (FieldExp::OF(Some(_)), FieldObs::OF(None)) => Some("absent-should-be-present"),
+        (FieldExp::OS(None), FieldObs::OS(Some(_))) | (FieldExp::OF(None), FieldObs::OF(Some(_))) => Some("present-should-be-absent"),
+        (FieldExp::OS(Some(a)), FieldObs::OS(Some(b))) => (a != b).then_some("wrong-text"),
+        (FieldExp::F(a), FieldObs::F(b)) | (FieldExp::OF(Some(a)), FieldObs::OF(Some(b))) => file_diff(a, b),
+        (FieldExp::VF(a), FieldObs::VF(b)) => {
+            if b.len() < a.len() { return Some("missing-file") }
+            if b.len() > a.len() { return Some("extra-file") }
+            if a.iter().zip(b).all(|(x, y)| file_diff(x, y).is_none()) { return None }
+            // same files in another order?
+            let mut used = vec![false; b.len()];
+            let permuted = a.iter().all(|x| match (0..b.len()).find(|&j| !used[j] && file_diff(x, &b[j]).is_none()) { Some(j) => { used[j] = true; true } None => false });
+            if permuted { return Some("order") }
+            a.iter().zip(b).find_map(|(x, y)| file_diff(x, y))
+        }
+        _ => Some("wrong-field-kind"), // cannot happen: the observation has the target's field kinds
+    }
+}
+
+pub enum Verdict { Pass { ambiguous: bool, key: String }, Violation { field: Option<usize>, symptom: String } }
+
+fn judge(exp: &Expect, obs: &Observed, t: &TargetDesc) -> Verdict {
+    let tid = t.id.split('{').next().unwrap_or(t.id);
+    match obs {
+        Observed::Panic(p) => Verdict::Violation { field: None, symptom: format!("panic:{}", panic_kind(p)) },
+        Observed::Abort(s) => Verdict::Violation { field: None, symptom: format!("abort:{s}") },
+        Observed::Err(_) => {
+            let must = exp.fields.iter().any(|alts| alts.iter().all(|a| matches!(a, Alt::Err)));
+            let may = must || exp.unknown || exp.empty_form || exp.fields.iter().any(|alts| alts.iter().any(|a| matches!(a, Alt::Err)));
+            if !may { return Verdict::Violation { field: None, symptom: "refused-should-accept".into() } }
+            Verdict::Pass { ambiguous: !must, key: format!("err:{tid}") }
+        }
+        Observed::Val(v) => {
+            if v.len() != exp.fields.len() { return Verdict::Violation { field: None, symptom: "wrong-field-count".into() } }
+            let mut ambiguous = exp.unknown || exp.empty_form;
+            for (i, (alts, o)) in exp.fields.iter().zip(v).enumerate() {
+                let vals: Vec<&FieldExp> = alts.iter().filter_map(|a| match a { Alt::Val(e) => Some(e), Alt::Err => None }).collect();
+                if vals.is_empty() { return Verdict::Violation { field: Some(i), symptom: "accepted-should-refuse".into() } }
+                if !vals.iter().any(|e| field_diff(e, o).is_none()) {
+                    return Verdict::Violation { field: Some(i), symptom: field_diff(vals[0], o).unwrap_or("wrong-value").to_string() }
+                }
+                if alts.len() > 1 { ambiguous = true }
+            }
+            Verdict::Pass { ambiguous, key: format!("val:{tid}") }
+        }
+    }
+}
+
+fn show_expect(exp: &Expect) -> String {
+    let f = |e: &FileExp| format!("File{{filename:\"{}\", mimetype:{}, content:\"{}\"}}", e.filename,
+        e.mimetype.as_ref().map(|m| format!("\"{m}\"")).unwrap_or_else(|| "\"\"|\"text/plain\"".into()), esc(&e.content));
+    let fields: Vec<String> = exp.fields.iter().map(|alts| alts.iter().map(|a| match a {
+        Alt::Err => "Err".to_string(),
+        Alt::Val(FieldExp::S(s)) => format!("\"{}\"", esc(s.as_bytes())),
+        Alt::Val(FieldExp::OS(None)) | Alt::Val(FieldExp::OF(None)) => "None".into(),
+        Alt::Val(FieldExp::OS(Some(s))) => format!("Some(\"{}\")", esc(s.as_bytes())),
+        Alt::Val(FieldExp::F(e)) => f(e),
+        Alt::Val(FieldExp::OF(Some(e))) => format!("Some({})", f(e)),
+        Alt::Val(FieldExp::VF(v)) => format!("[{}]", v.iter().map(f).collect::<Vec<_>>().join(", ")),
+    }).collect::<Vec<_>>().join(" | ")).collect();
+    format!("fields: ({}){}{}", fields.join("; "), if exp.unknown { " | Err (undeclared part present)" } else { "" }, if exp.empty_form { " | Err (no part at all)" } else { "" })
+}
+
+/* =============================== classification =============================== */
+
+fn contains(hay: &[u8], needle: &[u8]) -> bool { !needle.is_empty() && hay.windows(needle.len()).any(|w| w == needle) }
+
+/// (rank, feature) of one part; smaller rank = more likely to be what the decoder trips over
+fn part_feature(p: &Part, boundary: &str) -> (u8, &'static str) {
+    let c = p.content();
+    let dash = [b"--", boundary.as_bytes()].concat();
+    if contains(c, &dash) { return (1, "dash-boundary-in-content") }
+    if p.is_empty_file_input() { return (2, "empty-file-input") }
+    if c.ends_with(b"\r\n") { return (4, "content-ends-crlf") }
+    if c.ends_with(b"\r") { return (4, "content-ends-cr") }
+    if c.ends_with(b"\n") { return (4, "content-ends-lf") }
+    if contains(c, b"\r\n") { return (4, "content-has-crlf") }
+    if contains(c, b"--") { return (4, "content-has-dashdash") }
+    if std::str::from_utf8(c).is_err() || c.contains(&0) { return (4, "content-binary") }
+    match &p.body {
+        PartBody::File { filename, ctype, content } => {
+            if filename.is_empty() { return (5, "filename-empty") }
+            if !filename.is_ascii() { return (5, "filename-non-ascii") }
+            if content.is_empty() { return (5, "content-empty") }
+            if ctype.is_none() { return (6, "type-absent") }
+        }
+        PartBody::Text { value } => {
+            if value.is_empty() { return (5, "text-empty") }
+            if !value.is_ascii() { return (5, "text-non-ascii") }
+        }
+    }
+    if !p.name.bytes().all(|b| b.is_ascii_alphanumeric()) { return (6, "name-special") }
+    (7, "plain")
+}
+
+fn group_feature(parts: &[&Part], name: &str) -> Option<(u8, &'static str)> {
+    let idx: Vec<usize> = (0..parts.len()).filter(|&i| parts[i].name == name).collect();
+    if idx.len() < 2 { return None }
+    let adjacent = idx.windows(2).all(|w| w[1] == w[0] + 1);
+    let files = idx.iter().filter(|&&i| parts[i].is_file()).count();
+    Some((3, if files == idx.len() { if adjacent { "same-name-files" } else { "same-name-files-nonadjacent" } }
+        else if files == 0 { "same-name-texts" } else { "same-name-mixed" }))
+}
+
+/// (field-kind, feature) for the class id.
+fn blame(parts: &[&Part], t: &TargetDesc, field: Option<usize>, boundary: &str) -> (&'static str, &'static str) {
+    let kind_of = |name: &str| t.fields.iter().find(|(n, _)| *n == name).map(|(_, k)| k.name()).unwrap_or("undeclared");
+    // a part whose content holds the dash-boundary derails the parse of everything after it
+    let poison = parts.iter().find(|p| part_feature(p, boundary).0 == 1);
+    match field {
+        Some(i) => {
+            let (name, kind) = t.fields[i];
+            if poison.is_some() { return (kind.name(), "dash-boundary-in-content") }
+            let mut best: Option<(u8, &'static str)> = group_feature(parts, name);
+            for p in parts.iter().filter(|p| p.name == name) {
+                let f = part_feature(p, boundary);
+                if best.map_or(true, |b| f.0 < b.0) { best = Some(f) }
+            }
+            (kind.name(), best.map(|b| b.1).unwrap_or("no-part"))
+        }
+        None => {
+            if parts.is_empty() { return ("form", "empty-form") }
+            if let Some(p) = poison { return (kind_of(&p.name), "dash-boundary-in-content") }
+            let mut best: Option<(u8, &'static str, &str)> = None;
+            for p in parts {
+                let mut f = part_feature(p, boundary);
+                if let Some(g) = group_feature(parts, &p.name) { if g.0 < f.0 { f = g } }
+                if best.map_or(true, |b| f.0 < b.0) { best = Some((f.0, f.1, &p.name)) }
+            }
+            let b = best.unwrap();
+            (kind_of(b.2), b.1)
+        }
+    }
+}
+
+/* =============================== alphabets and families =============================== */
+
+#[derive(Clone, Copy, Debug)]
+enum Content { Lit(&'static [u8]), /** `--` + boundary: forms a delimiter with the preceding CRLF ⇒ outside the domain */ DashBoundary, /** `x--` + boundary: inside the domain */ XDashBoundary, /** `xy--` + boundary */ XYDashBoundary }
+
+#[derive(Clone, Debug)]
+enum SpecBody { Text(&'static str), File { filename: &'static str, ctype: Option<&'static str>, content: Content } }
+#[derive(Clone, Debug)]
+struct PartSpec { name: &'static str, body: SpecBody }
+
+impl PartSpec {
+    fn materialize(&self, boundary: &str) -> Part {
+        match &self.body {
+            SpecBody::Text(v) => Part::text(self.name, v),
+            SpecBody::File { filename, ctype, content } => {
+                let c: Vec<u8> = match content {
+                    Content::Lit(b) => b.to_vec(),
+                    Content::DashBoundary => format!("--{boundary}").into_bytes(),
+                    Content::XDashBoundary => format!("x--{boundary}").into_bytes(),
+                    Content::XYDashBoundary => format!("xy--{boundary}").into_bytes(),
+                };
+                Part::file(self.name, filename, *ctype, &c)
+            }
+        }
+    }
+}
+
+struct Family {
+    id: &'static str,
+    kinds: Vec<PartSpec>,
+    max_parts: usize,
+    boundaries: Vec<&'static str>,
+    opts: Vec<EncOpts>,
+    targets: Vec<usize>,
+    wire: bool,
+    /// run the strict reference decoder on every body of forms up to this length (binds the encoder to the grammar)
+    selfcheck_len: usize,
+}
+
+fn kinds(names: &[&'static str], texts: &[&'static str], filenames: &[&'static str], types: &[Option<&'static str>], contents: &[Content]) -> Vec<PartSpec> {
+    // simplest first: texts, then files; the name varies fastest so that repeats and both names appear early
+    let mut v = Vec::new();
+    for t in texts { for n in names { v.push(PartSpec { name: n, body: SpecBody::Text(t) }) } }
+    for c in contents { for f in filenames { for ty in types { for n in names {
+        v.push(PartSpec { name: n, body: SpecBody::File { filename: f, ctype: *ty, content: *c } })
+    } } } }
+    v
+}
+
+const TEXTS: &[&str] = &["a", "", "é", "a\r\nb"];
+const FILENAMES: &[&str] = &["f.txt", "", "é.png"];
+const TYPES: &[Option<&str>] = &[Some("text/plain"), None, Some("image/png")];
+const CONTENTS: &[Content] = &[
+    Content::Lit(b"x"), Content::Lit(b""), Content::Lit(b"\r\n"), Content::Lit(b"a\r\n"), Content::Lit(b"\r"), Content::Lit(b"--"),
+    Content::XDashBoundary, Content::XYDashBoundary, Content::DashBoundary, Content::Lit(b"\0\xff"),
+];
+const BOUNDARIES: &[&str] = &["B", "----WebKitFormBoundaryX", "a-b"];
+
+fn opts_quick() -> Vec<EncOpts> {
+    // default, then each option flipped alone, then all flipped
+    use mp::Extra;
+    let d = EncOpts::DEFAULT;
+    vec![d, EncOpts { final_crlf: false, ..d }, EncOpts { ct_first: true, ..d }, EncOpts { extra: Extra::Last, ..d }, EncOpts { extra: Extra::First, ..d },
+         EncOpts { text_ct: true, ..d }, EncOpts { ct_first: true, extra: Extra::First, final_crlf: false, text_ct: true }]
+}
+
+fn families(tier: Tier) -> Vec<Family> {
+    let ab: &[&'static str] = &["a", "b"];
+    let main_targets: Vec<usize> = (0..8).collect();
+    let quick = tier == Tier::Quick;
+    let mut v = Vec::new();
+    // F1: every form of ≤ 2 parts over the full part alphabet
+    // (quick: two of the three media types; every abort-predicted case costs a process, see `abort_predicted`)
+    v.push(Family { id: "full<=2", kinds: kinds(ab, TEXTS, FILENAMES, if quick { &TYPES[..2] } else { TYPES }, CONTENTS), max_parts: 2, boundaries: BOUNDARIES.to_vec(),
+        opts: if quick { opts_quick()[..2].to_vec() } else { EncOpts::all() }, targets: main_targets.clone(), wire: false, selfcheck_len: 2 });
+    // F2: three parts, non-empty filenames (the empty-file convention has its own family)
+    if quick {
+        v.push(Family { id: "three-parts(reduced)", kinds: kinds(ab, &["a", "a\r\nb"], &["f.txt"], &[Some("text/plain"), None],
+                &[Content::Lit(b"x"), Content::Lit(b""), Content::Lit(b"a\r\n"), Content::Lit(b"\r"), Content::Lit(b"--"), Content::Lit(b"\r\n")]),
+            max_parts: 3, boundaries: vec!["B", "----WebKitFormBoundaryX"], opts: opts_quick()[..6].to_vec(), targets: main_targets.clone(), wire: false, selfcheck_len: 0 });
+    } else {
+        v.push(Family { id: "three-parts", kinds: kinds(ab, TEXTS, &["f.txt", "é.png"], TYPES, CONTENTS), max_parts: 3, boundaries: BOUNDARIES.to_vec(),
+            opts: opts_quick(), targets: main_targets.clone(), wire: false, selfcheck_len: 0 });
+    }
+    // F3: the empty-file convention (filename "" × content "") next to real files and texts, ≤ 3 parts
+    v.push(Family { id: "empty-file-input", kinds: kinds(ab, &["a", ""], &["f.txt", ""], if quick { &TYPES[1..2] } else { &TYPES[..2] }, &[Content::Lit(b"x"), Content::Lit(b"")]),
+        max_parts: 3, boundaries: if quick { vec!["B"] } else { BOUNDARIES.to_vec() }, opts: if quick { opts_quick()[..1].to_vec() } else { opts_quick() },
+        targets: main_targets.clone(), wire: false, selfcheck_len: 3 });
+    // F4: names that are not identifiers
+    v.push(Family { id: "names", kinds: kinds(&["é n", "a[]"], &["a"], &["f.txt"], &[Some("text/plain")], &[Content::Lit(b"x"), Content::Lit(b"a\r\n")]),
+        max_parts: 3, boundaries: BOUNDARIES.to_vec(), opts: if quick { opts_quick()[..3].to_vec() } else { EncOpts::all() }, targets: vec![8, 9], wire: false, selfcheck_len: 3 });
+    // F5: through a real handler taking `Multipart<T6>` (read → router → FromBody → send)
+    v.push(Family { id: "wire", kinds: kinds(ab, &["a", ""], &["f.txt", ""], &[Some("image/png"), None],
+            &[Content::Lit(b"x"), Content::Lit(b""), Content::Lit(b"a\r\n"), Content::Lit(b"\0\xff"), Content::XDashBoundary]),
+        max_parts: if quick { 2 } else { 3 }, boundaries: vec!["B"], opts: opts_quick()[..2].to_vec(), targets: vec![WIRE_TARGET], wire: true, selfcheck_len: 0 });
+    v
+}
+
+/* =============================== process isolation =============================== */
+
+pub enum ForkResult { Done(Vec<u8>), Signaled(i32), Exited(i32), Failed(String) }
+
+pub fn signal_name(sig: i32) -> String {
+    match sig { libc::SIGABRT => "SIGABRT".into(), libc::SIGSEGV => "SIGSEGV".into(), libc::SIGBUS => "SIGBUS".into(), libc::SIGILL => "SIGILL".into(),
+        libc::SIGFPE => "SIGFPE".into(), libc::SIGALRM => "SIGALRM".into(), libc::SIGKILL => "SIGKILL".into(), n => format!("signal{n}") }
+}
+
+/// Run `f` in a forked child and return the bytes it produced, or how the child died.  The worker is single-threaded
+/// (no runtime is started for this property), so `fork` without `exec` is sound.
+pub fn fork_run(alarm_s: u32, f: impl FnOnce() -> Vec<u8>) -> ForkResult {
+    unsafe {
+        let mut fds = [0i32; 2];
+        if libc::pipe(fds.as_mut_ptr()) != 0 { return ForkResult::Failed("pipe".into()) }
+        let pid = libc::fork();
+        if pid < 0 { libc::close(fds[0]); libc::close(fds[1]); return ForkResult::Failed("fork".into()) }
+        if pid == 0 {
+            libc::close(fds[0]);
+            if alarm_s > 0 { libc::alarm(alarm_s); }
+            let out = f();
+            let mut off = 0;
+            while off < out.len() {
+                let n = libc::write(fds[1], out[off..].as_ptr() as *const libc::c_void, out.len() - off);
+                if n <= 0 { libc::_exit(101) }
+                off += n as usize;
+            }
+            libc::_exit(0)
+        }
+        libc::close(fds[1]);
+        let mut out = Vec::new();
+        let mut buf = [0u8; 65536];
+        loop {
+            let n = libc::read(fds[0], buf.as_mut_ptr() as *mut libc::c_void, buf.len());
+            if n > 0 { out.extend_from_slice(&buf[..n as usize]) } else if n == 0 { break }
+            else if *libc::__errno_location() != libc::EINTR { break }
+        }
+        libc::close(fds[0]);
+        let mut st = 0;
+        while libc::waitpid(pid, &mut st, 0) < 0 { if *libc::__errno_location() != libc::EINTR { return ForkResult::Failed("waitpid".into()) } }
+        if libc::WIFSIGNALED(st) { ForkResult::Signaled(libc::WTERMSIG(st)) }
+        else if libc::WIFEXITED(st) && libc::WEXITSTATUS(st) == 0 { ForkResult::Done(out) }
+        else { ForkResult::Exited(libc::WEXITSTATUS(st)) }
+    }
+}
+
+/// One u64 in memory shared with forked children: the sequence number of the case being executed.
+pub struct Progress(*mut u64);
+impl Progress {
+    pub fn new() -> Self {
+        let p = unsafe { libc::mmap(std::ptr::null_mut(), 4096, libc::PROT_READ | libc::PROT_WRITE, libc::MAP_SHARED | libc::MAP_ANONYMOUS, -1, 0) };
+        assert!(p != libc::MAP_FAILED, "mmap");
+        Progress(p as *mut u64)
+    }
+    #[inline] pub fn set(&self, v: u64) { unsafe { std::ptr::write_volatile(self.0, v) } }
+    #[inline] pub fn get(&self) -> u64 { unsafe { std::ptr::read_volatile(self.0) } }
+}
+
+/// Merge the JSON report of a child context into the worker's context (all fields involved are public).
+pub fn merge_report(ctx: &mut Ctx, r: &Value) {
+    let n = |k: &str| r[k].as_u64().unwrap_or(0);
+    ctx.evaluations += n("evaluations"); ctx.nontrivial += n("nontrivial"); ctx.collisions += n("collisions");
+    ctx.ambiguous += n("ambiguous"); ctx.skipped += n("skipped"); ctx.states += n("states"); ctx.transitions += n("transitions");
+    ctx.traces_validated += n("traces_validated");
+    if r["capped"].as_bool().unwrap_or(false) { ctx.capped = true }
+    if let Some(o) = r["outcomes"].as_object() { for (k, v) in o { *ctx.outcomes.entry(k.clone()).or_insert(0) += v.as_u64().unwrap_or(0) } }
+    if let Some(vs) = r["violations"].as_object() {
+        for (cls, v) in vs {
+            let st: &mut ClassStat = ctx.violations.entry(cls.clone()).or_default();
+            st.count += v["count"].as_u64().unwrap_or(0);
+            for w in v["witnesses"].as_array().cloned().unwrap_or_default() { st.witnesses.push(w) }
+            st.witnesses.sort_by_key(|w| w.to_string().len());
+            st.witnesses.truncate(MAX_WITNESSES_PER_CLASS);
+        }
+    }
+    for s in r["samples"].as_array().cloned().unwrap_or_default() { if ctx.samples.len() < MAX_SAMPLES && !ctx.samples.contains(&s) { ctx.samples.push(s) } }
+    if let Some(e) = r["extra"].as_object() {
+        for (k, v) in e {
+            if k.starts_with("sum_") { let cur = ctx.extra.get(k).and_then(Value::as_u64).unwrap_or(0); ctx.extra.insert(k.clone(), json!(cur + v.as_u64().unwrap_or(0))); }
+            else if !ctx.extra.contains_key(k) { ctx.extra.insert(k.clone(), v.clone()); }
+        }
+    }
+    for m in r["machinery_errors"].as_array().cloned().unwrap_or_default() { ctx.machinery_error(m.as_str().unwrap_or("?").to_string()) }
+}
+
+/* =============================== executing one case =============================== */
+
+/// An abort is predicted (from reading `DeserializeFilesOrField::deserialize_map`) when an empty file input reaches
+/// a required `File` field or a field the target does not declare: such cases get their own process.
+fn abort_predicted(parts: &[&Part], t: &TargetDesc) -> bool {
+    parts.iter().any(|p| p.is_empty_file_input() && match t.fields.iter().find(|(n, _)| p.name == *n) { None => true, Some((_, k)) => *k == Kind::F })
+}
+
+fn decode_guarded(t: &TargetDesc, body: &[u8]) -> Observed {
+    match guarded(|| (t.decode)(body)) { Ok(Ok(v)) => Observed::Val(v), Ok(Err(e)) => Observed::Err(e), Err(p) => Observed::Panic(p) }
+}
+
+thread_local! { static FORK_STATS: std::cell::Cell<(u64, u64)> = const { std::cell::Cell::new((0, 0)) }; }
+
+fn decode_isolated(t: &TargetDesc, body: &[u8]) -> Result<Observed, String> {
+    let t0 = std::time::Instant::now();
+    let r = decode_isolated_inner(t, body);
+    FORK_STATS.with(|s| { let (n, us) = s.get(); s.set((n + 1, us + t0.elapsed().as_micros() as u64)) });
+    r
+}
+
+fn decode_isolated_inner(t: &TargetDesc, body: &[u8]) -> Result<Observed, String> {
+    match fork_run(20, || serde_json::to_vec(&decode_guarded(t, body)).unwrap()) {
+        ForkResult::Done(bytes) => serde_json::from_slice(&bytes).map_err(|e| format!("child result unreadable: {e}")),
+        ForkResult::Signaled(s) => Ok(Observed::Abort(signal_name(s))),
+        ForkResult::Exited(c) => Err(format!("isolated decode exited with code {c}")),
+        ForkResult::Failed(w) => Err(format!("isolated decode: {w} failed")),
+    }
+}
+
+fn part_json(p: &Part) -> Value {
+    match &p.body {
+        PartBody::Text { value } => json!({"name": p.name, "text": value}),
+        PartBody::File { filename, ctype, content } => json!({"name": p.name, "filename": filename, "type": ctype, "content": esc(content)}),
+    }
+}
+
+fn witness(parts: &[&Part], boundary: &str, o: EncOpts, t: &TargetDesc, wire: bool, exp: &Expect, obs: &Observed, body: &[u8]) -> Value {
+    json!({"parts": parts.iter().map(|p| part_json(p)).collect::<Vec<_>>(), "boundary": boundary, "opts": o.tag(), "target": t.id, "wire": wire,
+           "body": esc(body), "expected": show_expect(exp), "observed": obs.brief()})
+}
+
+impl ohkami::openapi::Schema for T6<'_> { fn schema() -> impl Into<ohkami::openapi::schema::SchemaRef> { ohkami::openapi::string() } }
+
+/// (status, body) of a response written by the subject: status line, header lines, empty line, exactly
+/// Content-Length body bytes.  Minimal on purpose (C03 owns response well-formedness).
+fn split_response(raw: &[u8]) -> Option<(u16, &[u8])> {
+    let head_end = raw.windows(4).position(|w| w == b"\r\n\r\n")?;
+    let head = std::str::from_utf8(&raw[..head_end]).ok()?;
+    let mut lines = head.split("\r\n");
+    let status: u16 = lines.next()?.strip_prefix("HTTP/1.1 ")?.get(..3)?.parse().ok()?;
+    let cl: usize = lines.find_map(|l| l.split_once(": ").filter(|(k, _)| k.eq_ignore_ascii_case("content-length")).map(|(_, v)| v))?.parse().ok()?;
+    let body = &raw[head_end + 4..];
+    (body.len() == cl).then_some((status, body))
+}
+
+struct Wire { router: ohkami::__verif__::VerifRouter }
+impl Wire {
+    fn new() -> Self {
+        use ohkami::{Ohkami, Route};
+        use ohkami::format::Multipart;
+        async fn up(Multipart(t): Multipart<T6<'_>>) -> String { serde_json::to_string(&obs_t6(&t)).unwrap() }
+        crate::app::pin_clock();
+        Wire { router: ohkami::__verif__::VerifRouter::from(Ohkami::new(("/up".POST(up),))) }
+    }
+    fn decode(&self, boundary: &str, body: &[u8]) -> Observed {
+        let ct = format!("multipart/form-data; boundary={boundary}");
+        let raw = crate::app::request("POST", "/up", &[("Host", "h"), ("Content-Type", &ct)], body);
+        match crate::app::oneshot(&self.router, &raw) {
+            crate::app::Outcome::Panic(stage, p) => Observed::Panic(format!("[{stage}] {p}")),
+            crate::app::Outcome::Response { raw, .. } => match split_response(&raw) {
+                Some((200, b)) => match serde_json::from_slice::<Obs>(b) { Ok(v) => Observed::Val(v), Err(e) => Observed::Panic(format!("handler output unreadable: {e}")) },
+                Some((400, b)) => Observed::Err(String::from_utf8_lossy(b).into_owned()),
+                Some((st, _)) => Observed::Panic(format!("unexpected status {st}")),
+                None => Observed::Panic("response is not an HTTP/1.1 message with a Content-Length body".into()),
+            },
+            other => Observed::Panic(format!("unexpected outcome {}", other.kind())),
+        }
+    }
+}
+
+struct CaseEnv<'a> { parts: &'a [&'a Part], boundary: &'a str, opts: EncOpts, target: &'a TargetDesc, wire: Option<&'a Wire>, body: &'a [u8], exp: &'a Expect, touches_delimiter: bool }
+
+fn run_case(ctx: &mut Ctx, c: &CaseEnv<'_>, force_isolation: bool) {
+    let obs = if let Some(w) = c.wire { w.decode(c.boundary, c.body) }
+        else if force_isolation || abort_predicted(c.parts, c.target) {
+            match decode_isolated(c.target, c.body) { Ok(o) => o, Err(m) => { ctx.machinery_error(m); return } }
+        } else { decode_guarded(c.target, c.body) };
+    let declared = c.parts.iter().any(|p| c.target.fields.iter().any(|(n, _)| p.name == *n));
+    let nontrivial = declared;
+    match judge(c.exp, &obs, c.target) {
+        Verdict::Pass { ambiguous: false, key } => ctx.pass(&key, nontrivial, nontrivial && c.touches_delimiter),
+        Verdict::Pass { ambiguous: true, key } => ctx.ambiguous(&key),
+        Verdict::Violation { field, symptom } => {
+            let (kind, feature) = blame(c.parts, c.target, field, c.boundary);
+            let class = format!("C10/{kind}{}/{feature}/{symptom}", if c.wire.is_some() { "@wire" } else { "" });
+            record_violation(ctx, &class, nontrivial, || witness(c.parts, c.boundary, c.opts, c.target, c.wire.is_some(), c.exp, &obs, c.body));
+        }
+    }
+}
+
+/// `ctx.violation`, except that once a class holds its full set of witnesses no further witness is built (the
+/// enumeration is simplest-first, later witnesses are never smaller in any interesting way).
+pub fn record_violation(ctx: &mut Ctx, class: &str, nontrivial: bool, w: impl FnOnce() -> Value) {
+    if ctx.violations.get(class).map_or(false, |s| s.witnesses.len() >= MAX_WITNESSES_PER_CLASS) {
+        ctx.evaluations += 1;
+        if nontrivial { ctx.nontrivial += 1 }
+        *ctx.outcomes.entry(format!("violation:{class}")).or_insert(0) += 1;
+        ctx.violations.get_mut(class).unwrap().count += 1;
+    } else { ctx.violation(class, nontrivial, w) }
+}
+
+/// the case exercises what the alphabet was designed for: bytes next to the delimiter that look like it, or
+/// same-name files (grouping and re-reversal), or the empty-file convention
+fn touches_delimiter(parts: &[&Part]) -> bool {
+    parts.iter().any(|p| { let c = p.content(); c.ends_with(b"\r") || c.ends_with(b"\n") || contains(c, b"--") || p.is_empty_file_input() })
+        || (0..parts.len()).any(|i| (i + 1..parts.len()).any(|j| parts[i].name == parts[j].name && parts[i].is_file() && parts[j].is_file()))
+}
+
+/* =============================== enumeration =============================== */
+
+struct Prepared { fam: Family, mat: Vec<Vec<Part>>, safe: Vec<Vec<bool>>, enc: Vec<Vec<Vec<Vec<u8>>>> }
+
+fn prepare(fam: Family) -> Prepared {
+    let mat: Vec<Vec<Part>> = fam.boundaries.iter().map(|b| fam.kinds.iter().map(|k| k.materialize(b)).collect()).collect();
+    let safe = mat.iter().zip(&fam.boundaries).map(|(ps, b)| ps.iter().map(|p| mp::content_safe(p.content(), b)).collect()).collect();
+    let enc = mat.iter().map(|ps| fam.opts.iter().map(|o| ps.iter().map(|p| mp::encode_part(p, *o)).collect()).collect()).collect();
+    Prepared { fam, mat, safe, enc }
+}
+
+#[derive(Clone, Copy)]
+#[allow(dead_code)]
+struct Unit { fam: usize, len: usize, first: usize }
+
+enum Mode<'a> { Run { skip: &'a BTreeSet<u64>, progress: &'a Progress }, Describe(u64) }
+
+/// Enumerate the cases of one unit in a fixed order.  `Run`: execute them (except those in `skip`).  `Describe(n)`:
+/// return the witness-shaped description of case number n without executing anything.
+fn walk_unit(ctx: &mut Ctx, p: &Prepared, u: Unit, wire: Option<&Wire>, mode: Mode<'_>) -> Option<Value> {
+    let nk = p.fam.kinds.len();
+    let rest = u.len.saturating_sub(1);
+    let total = nk.pow(rest as u32);
+    let mut seq: u64 = 0;
+    let mut body = Vec::with_capacity(1024);
+    for r in 0..total {
+        if r & 0xff == 0 && ctx.started.elapsed().as_secs_f64() > ctx.wall_cap_s { ctx.capped = true }
+        if ctx.capped { return None }
+        let mut form: Vec<usize> = Vec::with_capacity(u.len);
+        if u.len > 0 { form.push(u.first) }
+        let mut x = r; let mut digits = vec![0usize; rest];
+        for d in (0..rest).rev() { digits[d] = x % nk; x /= nk; }
+        form.extend(digits);
+        for (bi, boundary) in p.fam.boundaries.iter().enumerate() {
+            let parts: Vec<&Part> = form.iter().map(|&k| &p.mat[bi][k]).collect();
+            let ncases = (p.fam.opts.len() * p.fam.targets.len()) as u64;
+            if !form.iter().all(|&k| p.safe[bi][k]) {
+                // outside the domain of the property: a content together with its neighbourhood forms a delimiter
+                if matches!(mode, Mode::Run { .. }) { ctx.skipped += ncases; }
+                continue
+            }
+            let exps: Vec<Expect> = p.fam.targets.iter().map(|&t| fit(&parts, &TARGETS[t])).collect();
+            let touches = touches_delimiter(&parts);
+            for (oi, o) in p.fam.opts.iter().enumerate() {
+                let encs: Vec<&[u8]> = form.iter().map(|&k| p.enc[bi][oi][k].as_slice()).collect();
+                mp::assemble(&encs, boundary, o.final_crlf, &mut body);
+                if matches!(mode, Mode::Run { .. }) && u.len <= p.fam.selfcheck_len { selfcheck(ctx, &parts, boundary, &body); }
+                for (ti, &t) in p.fam.targets.iter().enumerate() {
+                    seq += 1;
+                    let env = CaseEnv { parts: &parts, boundary, opts: *o, target: &TARGETS[t], wire, body: &body, exp: &exps[ti], touches_delimiter: touches };
+                    match &mode {
+                        Mode::Describe(n) => if seq == *n {
+                            return Some(witness(&parts, boundary, *o, &TARGETS[t], wire.is_some(), &exps[ti], &Observed::Abort("?".into()), &body))
+                        },
+                        Mode::Run { skip, progress } => {
+                            if skip.contains(&seq) { continue }
+                            progress.set(seq);
+                            run_case(ctx, &env, false);
+                        }
+                    }
+                }
+            }
+        }
+    }
+    None
+}
+
+/// Reference-side conformance: the strict decoder reads back exactly the form, and the delimiter occurs exactly
+/// where the encoder put it.  A failure here is a defect of the harness (exit 2), never a verdict.
+fn selfcheck(ctx: &mut Ctx, parts: &[&Part], boundary: &str, body: &[u8]) {
+    ctx.traces_validated += 1;
+    if !mp::in_domain(body, boundary, parts.len()) { ctx.machinery_error(format!("reference: delimiter count wrong for {}", esc(body))); return }
+    match mp::decode_strict(body, boundary) {
+        Ok(got) => {
+            let same = got.len() == parts.len() && got.iter().zip(parts).all(|(g, p)| g.name == p.name && g.is_file() == p.is_file() && g.content() == p.content()
+                && match (&g.body, &p.body) { (PartBody::File { filename: a, ctype: x, .. }, PartBody::File { filename: b, ctype: y, .. }) => a == b && x == y, _ => true });
+            if !same { ctx.machinery_error(format!("reference: strict decoder disagrees with the encoder on {}", esc(body))) }
+        }
+        Err(e) => ctx.machinery_error(format!("reference: strict decoder rejects the encoder's output ({e}): {}", esc(body))),
+    }
+}
+
+const MAX_ABORTS_PER_UNIT: usize = 6;
+
+/// Run one unit of an enumeration in a forked child with its own `Ctx` and merge the child's report.  `body(ctx, skip)`
+/// must enumerate the unit's cases in a fixed order, number them 1, 2, … , call `progress.set(n)` before executing
+/// case n and leave out the cases whose number is in `skip`.  If the child is killed by a signal, the case it was
+/// executing is put into `skip` and the unit is run again; after more than `max_deaths` deaths the unit is given up
+/// (first component false: nothing of it is counted; the caller reports the run as capped and goes on).
+/// Returns the (case number, signal) pairs of the cases that killed a child; the caller turns them into violations.
+pub fn isolate_unit(ctx: &mut Ctx, progress: &Progress, max_deaths: usize, body: &dyn Fn(&mut Ctx, &BTreeSet<u64>)) -> (bool, Vec<(u64, String)>) {
+    let mut completed = true;
+    let mut skip: BTreeSet<u64> = BTreeSet::new();
+    let mut died: Vec<(u64, String)> = Vec::new();
+    loop {
+        let remaining = (ctx.wall_cap_s - ctx.started.elapsed().as_secs_f64()).max(1.0);
+        progress.set(0);
+        let (property, tier) = (ctx.property, ctx.tier);
+        let res = fork_run(remaining as u32 + 30, || {
+            let mut c = Ctx::new(property, tier, 0, 1);
+            c.wall_cap_s = remaining;
+            body(&mut c, &skip);
+            c.report().to_string().into_bytes()
+        });
+        match res {
+            ForkResult::Done(bytes) => {
+                match serde_json::from_slice::<Value>(&bytes) { Ok(r) => merge_report(ctx, &r), Err(e) => ctx.machinery_error(format!("unit report unreadable: {e}")) }
+                break
+            }
+            ForkResult::Signaled(sig) if sig == libc::SIGALRM => { ctx.capped = true; break }
+            ForkResult::Signaled(sig) => {
+                let at = progress.get();
+                if at == 0 || skip.contains(&at) { ctx.machinery_error(format!("unit child died with {} outside any case", signal_name(sig))); break }
+                skip.insert(at);
+                died.push((at, signal_name(sig)));
+                if died.len() > max_deaths { completed = false; break }
+            }
+            ForkResult::Exited(c) => { ctx.machinery_error(format!("unit child exited with code {c}")); break }
+            ForkResult::Failed(w) => { ctx.machinery_error(format!("unit isolation: {w} failed")); break }
+        }
+    }
+    (completed, died)
+}
+
+/// returns false if the unit had to be given up (see `isolate_unit`)
+fn run_unit_isolated(ctx: &mut Ctx, p: &Prepared, u: Unit, wire: Option<&Wire>, progress: &Progress) -> bool {
+    let (completed, died) = isolate_unit(ctx, progress, MAX_ABORTS_PER_UNIT, &|c, skip| {
+        FORK_STATS.with(|s| s.set((0, 0)));
+        walk_unit(c, p, u, wire, Mode::Run { skip, progress });
+        let (n, us) = FORK_STATS.with(|s| s.get());
+        c.extra.insert(format!("sum_isolated_cases[{}]", p.fam.id), json!(n));
+        c.extra.insert(format!("sum_isolated_ms[{}]", p.fam.id), json!(us / 1000));
+    });
+    // the cases that killed a child: classify them as in `run_case` (replay re-executes them in their own process)
+    for (at, sig) in died {
+        let mut scratch = Ctx::new(ctx.property, ctx.tier, 0, 1);
+        if let Some(mut w) = walk_unit(&mut scratch, p, u, wire, Mode::Describe(at)) {
+            let parts_owned = parts_from_json(&w["parts"]).unwrap_or_default();
+            let parts: Vec<&Part> = parts_owned.iter().collect();
+            let t = &TARGETS[target_by_id(w["target"].as_str().unwrap_or("")).unwrap_or(0)];
+            let (kind, feature) = blame(&parts, t, None, w["boundary"].as_str().unwrap_or(""));
+            w["observed"] = json!(Observed::Abort(sig.clone()).brief());
+            let class = format!("C10/{kind}{}/{feature}/abort:{sig}", if wire.is_some() { "@wire" } else { "" });
+            ctx.violation(&class, true, || w);
+        } else { ctx.machinery_error(format!("could not re-derive case {at} of a unit that died")) }
+    }
+    completed
+}
+
+pub fn run(ctx: &mut Ctx) {
+    let fams: Vec<Prepared> = families(ctx.tier).into_iter().map(prepare).collect();
+    let progress = Progress::new();
+    let mut wire: Option<Wire> = None;
+    let mut bounds = Vec::new();
+    let mut abandoned = 0u64;
+    for (fi, p) in fams.iter().enumerate() {
+        bounds.push(json!({"family": p.fam.id, "part_kinds": p.fam.kinds.len(), "max_parts": p.fam.max_parts, "boundaries": p.fam.boundaries,
+            "encoder_option_sets": p.fam.opts.iter().map(|o| o.tag()).collect::<Vec<_>>(), "targets": p.fam.targets.iter().map(|&t| TARGETS[t].id).collect::<Vec<_>>(),
+            "via": if p.fam.wire { "POST through read → router → Multipart<T> handler → send" } else { "serde_multipart::from_bytes" }}));
+        let t_family = std::time::Instant::now();
+        let before = ctx.evaluations;
+        for len in 0..=p.fam.max_parts {
+            let firsts = if len == 0 { 1 } else { p.fam.kinds.len() };
+            for first in 0..firsts {
+                if !ctx.mine() { continue }
+                if ctx.out_of_time() { break }
+                if p.fam.wire && wire.is_none() { wire = Some(Wire::new()) }
+                if !run_unit_isolated(ctx, p, Unit { fam: fi, len, first }, if p.fam.wire { wire.as_ref() } else { None }, &progress) { abandoned += 1 }
+            }
+        }
+        ctx.extra.insert(format!("sum_worker_ms[{}]", p.fam.id), json!(t_family.elapsed().as_millis() as u64));
+        ctx.extra.insert(format!("sum_cases[{}]", p.fam.id), json!(ctx.evaluations - before));
+    }
+    if abandoned > 0 { ctx.capped = true; ctx.extra.insert("sum_units_given_up_after_repeated_process_deaths".into(), json!(abandoned)); }
+    let p0 = &fams[0];
+    ctx.sample(|| { let parts = [&p0.mat[0][0], &p0.mat[0][9]]; json!({"form": parts.iter().map(|p| part_json(p)).collect::<Vec<_>>(),
+        "body": esc(&mp::encode(&[parts[0].clone(), parts[1].clone()], "B", EncOpts::DEFAULT))}) });
+    ctx.sample(|| { let parts = [&p0.mat[0][10], &p0.mat[0][10], &p0.mat[0][1]]; let body = mp::encode(&parts.iter().map(|p| (*p).clone()).collect::<Vec<_>>(), "B", EncOpts::DEFAULT);
+        json!({"form": parts.iter().map(|p| part_json(p)).collect::<Vec<_>>(), "target": TARGETS[6].id, "observed": decode_guarded(&TARGETS[6], &body).brief()}) });
+    ctx.extra.insert("rule".into(), json!("case = (form of ≤3 parts, boundary, encoder options, target type); every case is distinct by construction (families are \
+        enumerated as full products). non-trivial = at least one submitted part is declared by the target; collision = non-trivial and the form touches the delimiter \
+        logic (a content ending in CR or LF, containing `--` or the dash-boundary, an empty file input, or two files under one name)"));
+    ctx.extra.insert("distinct_by_construction".into(), json!(true));
+    ctx.extra.insert("bounds".into(), json!({"families": bounds}));
+}
+
+/* =============================== replay =============================== */
+
+fn parts_from_json(v: &Value) -> Option<Vec<Part>> {
+    v.as_array()?.iter().map(|p| {
+        let name = p["name"].as_str()?;
+        Some(match p.get("text").and_then(Value::as_str) {
+            Some(t) => Part::text(name, t),
+            None => Part::file(name, p["filename"].as_str()?, p["type"].as_str(), &unesc(p["content"].as_str()?)),
+        })
+    }).collect()
+}
+
+pub fn replay(ctx: &mut Ctx, case: &Value) {
+    let (Some(parts_owned), Some(boundary), Some(o), Some(ti)) = (parts_from_json(&case["parts"]), case["boundary"].as_str(),
+        case["opts"].as_str().and_then(EncOpts::from_tag), case["target"].as_str().and_then(target_by_id)) else {
+        ctx.machinery_error("C10 replay: case needs parts, boundary, opts, target".into()); return
+    };
+    let parts: Vec<&Part> = parts_owned.iter().collect();
+    let body = mp::encode(&parts_owned, boundary, o);
+    if !mp::in_domain(&body, boundary, parts.len()) { ctx.skip(); return }
+    let t = &TARGETS[ti];
+    let exp = fit(&parts, t);
+    let wire = case["wire"].as_bool().unwrap_or(false).then(Wire::new);
+    let env = CaseEnv { parts: &parts, boundary, opts: o, target: t, wire: wire.as_ref(), body: &body, exp: &exp, touches_delimiter: touches_delimiter(&parts) };
+    run_case(ctx, &env, true);
+}
